@@ -17,6 +17,18 @@ open Kapture
 theorem focal_roundtrip (f w h : Rat) (hw : 0 < w) (hh : 0 < h) : exportFocal f w h * largest w h = f :=
   exportFocal_mul_largest f hw hh
 
+/-- the hand-written camera conversion of Model/C15.lean reads what the GENERATED definitions (Gen/OsfmCamera.lean, translated
+  from export_opensfm_camera and import_camera on every run) say: the accepted camera types, where k1 / k2 are read, the
+  width / height entries, the focal expressions of both directions, the type and the parameter list the importer builds -/
+theorem generated_camera_code_is_the_model :
+    (∀ t, Gen.OsfmCamera.perspectiveTypes.contains (typeName t) = (t != .other)) ∧
+    Gen.OsfmCamera.k1Index = 5 ∧ Gen.OsfmCamera.k2Index = 6 ∧ Gen.OsfmCamera.importType = "RADIAL" ∧
+    Gen.OsfmCamera.projectionType = "perspective" ∧
+    (∀ mx p, Gen.OsfmCamera.exportWidth mx p = p 0 ∧ Gen.OsfmCamera.exportHeight mx p = p 1 ∧
+      Gen.OsfmCamera.exportFocal mx p = p 2 / mx (p 0) (p 1)) ∧
+    (∀ mx w h f k1 k2, Gen.OsfmCamera.importParams mx w h f k1 k2 = [w, h, f * mx w h, w / 2, h / 2, k1, k2]) := by
+  refine ⟨fun t => by cases t <;> decide, rfl, rfl, rfl, rfl, fun mx p => ⟨rfl, rfl, rfl⟩, fun mx w h f k1 k2 => rfl⟩
+
 /-- the same through the importer's own computation of the largest side from the integer width and height -/
 theorem focal_roundtrip_pixels (f : Rat) (W H : Int) (hW : 0 < W) (hH : 0 < H) :
     importFocal (exportFocal f (W : Rat) (H : Rat)) W H = f :=
